@@ -12,6 +12,8 @@ import (
 	"strings"
 
 	"golang.org/x/tools/go/ssa"
+	"crypto/sha256"
+	"encoding/hex"
 )
 
 type Obligation struct {
@@ -38,6 +40,30 @@ type Obligation struct {
 	Definite bool
 	// Parts: the goal is the conjunction of these goals; each is decided by its own (smaller) query
 	Parts []*Term
+}
+
+// VCHash identifies the verification condition (hypotheses, path condition, goal and parts) independently of term
+// numbering: two runs that generate the same condition get the same hash.
+func (o *Obligation) VCHash() string {
+	var hs []string
+	for _, h := range o.Hyps {
+		hs = append(hs, h.StructHash())
+	}
+	sort.Strings(hs)
+	ps := []string{}
+	for _, p := range o.Parts {
+		ps = append(ps, p.StructHash())
+	}
+	sort.Strings(ps)
+	pc, goal := "", ""
+	if o.PC != nil {
+		pc = o.PC.StructHash()
+	}
+	if o.Goal != nil {
+		goal = o.Goal.StructHash()
+	}
+	sum := sha256.Sum256([]byte(strings.Join(hs, ",") + "|" + pc + "|" + goal + "|" + strings.Join(ps, ",")))
+	return hex.EncodeToString(sum[:12])
 }
 
 type inputSym struct {
